@@ -498,30 +498,55 @@ def _one(rows, case, out, ops, pending, model_ok, prefix_rng, record):
     return blocks
 
 
+def _rows_of(inp):
+    if "rows" in inp:
+        return _rows_from_json(inp["rows"])
+    if "classify" in inp:
+        return [["**t"], [inp["classify"]], ["y"]]
+    if "classify_top" in inp:
+        return [[inp["classify_top"]], ["y"]]
+    if "kinds" in inp and "spelling" in inp:
+        n = inp["spelling"]
+        return [list(KIND_SPELLINGS[k][(n + 3 * j) % len(KIND_SPELLINGS[k])]) for j, k in enumerate(inp["kinds"])]
+    if "kinds" in inp:
+        return [list(KIND_SPELLINGS[k][0]) for k in inp["kinds"]]
+    return None
+
+
 def replay(rep):
     inp = rep.get("input") or {}
-    if "rows" in inp:
-        rows = _rows_from_json(inp["rows"])
-    elif "classify" in inp:
-        rows = [["**t"], [inp["classify"]], ["y"]]
-    elif "classify_top" in inp:
-        rows = [[inp["classify_top"]], ["y"]]
-    elif "kinds" in inp and "spelling" in inp:
-        n = inp["spelling"]
-        rows = [list(KIND_SPELLINGS[k][(n + 3 * j) % len(KIND_SPELLINGS[k])]) for j, k in enumerate(inp["kinds"])]
-    elif "kinds" in inp:
-        rows = [list(KIND_SPELLINGS[k][0]) for k in inp["kinds"]]
-    else:
+    rows = _rows_of(inp)
+    if rows is None:
         return False, "replay file has no input (no-failing-input-found): " + str(rep.get("broken"))[:300]
     out = Outcome()
-    blocks = impl_blocks(rows)
+    try:
+        blocks = impl_blocks(rows)
+    except Exception as e:  # noqa: BLE001 — the splitter itself must not raise on any row sequence
+        return False, "parse_blocks_stable raised"
     oracle(rows, blocks, out, inp)
     default_route_ok(rows, blocks, out, inp)
     if "cut" in inp:
-        oracle_prefix(rows, blocks, inp["cut"], out, inp)
+        oracle_prefix(rows, blocks, min(inp["cut"], len(rows)), out, inp)
+    else:
+        for cut in range(len(rows) + 1) if len(rows) <= 40 else ():
+            oracle_prefix(rows, blocks, cut, out, inp)
     if out.failures:
         return False, out.failures[0]["what"]
     return True, "property holds on this input"
+
+
+def shrink(inp, fails, budget_s):
+    """fewer rows, then fewer cells per row, with the same verdict"""
+    rows = _rows_of(inp)
+    if rows is None:
+        return None
+    keep = {k: v for k, v in inp.items() if k == "cut"}
+    jr = grid_to_json(rows)
+    jr = common.ddmin(jr, lambda rs: fails(dict(keep, rows=rs)), budget_s * 0.7)
+    for k in range(len(jr)):
+        while len(jr[k]) > 1 and fails(dict(keep, rows=jr[:k] + [jr[k][:-1]] + jr[k + 1:])):
+            jr[k] = jr[k][:-1]
+    return dict(keep, rows=jr)
 
 
 def _rows_from_json(rows):
